@@ -708,8 +708,8 @@ def run_c15(rep, tier):
     ctx0 = mp.get_context('fork')
     with ctx0.Pool(common.NCPU, maxtasksperchild=1) as pool0:
         need = sorted({x for p in pairs for x in p})
-        evcount = dict(zip(need, pool0.map(count_events, [A[n] for n in need], chunksize=1)))
-        entry_info = dict(zip(need, pool0.map(function_entry_events, [A[n] for n in need], chunksize=1)))
+        evcount = dict(zip(need, common.pmap(pool0, count_events, [A[n] for n in need])))
+        entry_info = dict(zip(need, common.pmap(pool0, function_entry_events, [A[n] for n in need])))
     nsched = 150 if tier == 'quick' else 3000
     step = max(1, len(schedules) // nsched)
     sched_tasks = []
@@ -751,12 +751,12 @@ def run_c15(rep, tier):
     rep.evaluations = len(tasks) + len(sched_tasks) + len(soak_tasks)
     ctx = mp.get_context('fork')
     with ctx.Pool(common.NCPU, maxtasksperchild=1) as pool:
-        obs = pool.map(history_obs, tasks, chunksize=1)
-        obs += pool.map(soak_obs, soak_tasks, chunksize=1)
-        obs += pool.map(schedule_obs, sched_tasks, chunksize=1)
+        obs = common.pmap(pool, history_obs, tasks)
+        obs += common.pmap(pool, soak_obs, soak_tasks)
+        obs += common.pmap(pool, schedule_obs, sched_tasks)
         if tier == 'thorough':
             fr = [([p[0], p[1], p[0]], A, ref, 20, f'free running threads on {list(p)}') for p in pairs]
-            obs += pool.map(free_running_obs, fr, chunksize=1)
+            obs += common.pmap(pool, free_running_obs, fr)
             rep.evaluations += len(fr)
     verdicts, st = common.validate_observations(rep.pid, 'Trace_Purity', obs, tag='purity', timeout=3000)
     rep.add_trace_stats(st, len(obs))
